@@ -18,6 +18,7 @@ RULE = ('Hypothesis: texts as separator/word sequences (words incl. regex metach
         '1-4 rules (0-3 left words, 0-3 right words, comments, varying blanks); result of utils.replace_phrases compared for equality with a reference matcher; '
         'plus the same rules through tex2txt(repl=..) on generated prose, single and multi-language. '
         'non-trivial = at least one rule matches AND some matching rule has a replacement whose length differs from the matched phrase; distinct by (text, map, rules)')
+RULE += ' Additions: integration runs with the main language given or left at its default, rules passed as list or read from a file by read_replacements() (last line with / without line end).'
 ASSUMPTIONS = [
     'rule lines without & are not generated (the statement does not define them)',
     'position lists are lists of integers as tex2txt produces them',
